@@ -161,6 +161,9 @@ fn hpx_uniq<T: Idx + num::CheckedAdd>(sink: &mut Sink, rng: &mut Rng, w: u32, th
       sink.emit(&format!("u_hpx {} {}", d, i), &u.to_u64().to_string(), true);
       let (dd, ii) = Hpx::<T>::from_uniq_hpx(u);
       sink.emit(&format!("u_fromhpx {}", u.to_u64()), &format!("{}/{}", dd, ii.to_u64()), true);
+      // NUNIQ number -> range of the cell at the deepest level of the index type
+      let r = Hpx::<T>::uniq_hpx_to_range(u);
+      sink.emit(&format!("u_hpxrange {} {}", w, u.to_u64()), &format!("{}-{}", r.start.to_u64(), r.end.to_u64()), true);
     }
   }
   // nested ranges -> NUNIQ ranges -> nested ranges
